@@ -437,6 +437,10 @@ fn jtoken_to_runtime_object(
                 } else if p == "#n" {
                     name = Some(str_of(&pv)?.to_string());
                 } else {
+                    if p.is_empty() {
+                        return Err(malformed("a name for named content"));
+                    }
+
                     let named_content_item =
                         jtoken_to_runtime_object(tok, pv, Some(p.clone()), depth + 1)?;
 
@@ -515,7 +519,8 @@ fn jarray_to_container(
     if let Some(ArrayElement::LastElement(f, n, named_content)) = named {
         flags = f;
 
-        if n.is_some() {
+        // Named-only content is known by the key it is stored under
+        if name.is_none() {
             name = n;
         }
 
